@@ -43,6 +43,14 @@ Theorem C15_belief_price_sound : forall dflt maxs m p offer ret spread, 0 < p ->
   ret * DEC + er > er * (DEC - eff_spread dflt maxs m) \/ er <= ret.
 Proof. exact belief_sound. Qed.
 
+(* against the exact quotient offer/p: ret + 1 + (er + offer)*10^-18 > (offer/p)*(1 - s_eff) *)
+Theorem C15_belief_price_sound_exact : forall dflt maxs m p offer ret spread, 0 < p -> 0 <= offer -> 0 <= ret ->
+  0 <= eff_spread dflt maxs m <= DEC ->
+  assert_max_spread dflt maxs (Some p) m offer ret spread = Ok tt ->
+  let er := expected_return offer p in
+  (ret + 1) * DEC * p + (er + offer) * p > offer * DEC * (DEC - eff_spread dflt maxs m) \/ er <= ret.
+Proof. exact belief_sound_exact. Qed.
+
 (* the code's expected return vs the exact quotient offer/p (p is an 18-decimal price) *)
 Theorem C15_expected_return_truncation : forall offer p, 0 < p -> 0 <= offer ->
   let er := expected_return offer p in
@@ -125,6 +133,7 @@ Print Assumptions C15_max_spread_complete.
 Print Assumptions C15_rejected_only_for_slippage.
 Print Assumptions C15_spread_capped_and_defaulted.
 Print Assumptions C15_belief_price_sound.
+Print Assumptions C15_belief_price_sound_exact.
 Print Assumptions C15_expected_return_truncation.
 Print Assumptions C15_belief_price_complete.
 Print Assumptions C15_tolerance_sound.
